@@ -416,7 +416,7 @@ def explore(ctx):
         work.append(('pv', (rate, float(rng.choice([1, 2, 10, 12, 30, 360, rng.uniform(0, 50)])), rng.uniform(-1000, 1000), rng.choice([0.0, rng.uniform(-1e5, 1e5)]), rng.choice([0, 1]))))
     for k in range(4):
         work.append(('rand', ctx.seed * 10 + k))
-    for (k, c), vs in zip(work, pmap(_worker, work, limit=60.0)):
+    for (k, c), vs in zip(work, pmap(_worker, work, limit=60.0, confirm=False)):
         if vs == HANG:
             R.violate({k: list(c) if isinstance(c, tuple) else c}, '%s %r' % (k, c), None, 'returns', 'time limit')
             continue
@@ -446,7 +446,7 @@ def search(ctx, proof, res):
         work.append(('atan2', (rng.uniform(-2, 2), rng.uniform(-2, 2))))
         work.append(('pv', (rng.choice([0.0, rng.uniform(-0.9, 2)]), float(rng.randint(1, 40)), rng.uniform(-100, 100), rng.uniform(-1e3, 1e3), rng.choice([0, 1]))))
         work.append(('powlog', (rng.uniform(-3, 5), rng.choice([rng.uniform(-3, 3), float(rng.randint(-4, 4))]))))
-    for (k, c), vs in zip(work, pmap(_worker, work, limit=60.0)):
+    for (k, c), vs in zip(work, pmap(_worker, work, limit=60.0, confirm=False)):
         if vs == HANG:
             continue
         for (k_, c_, w, cls, e, g) in vs:
